@@ -272,6 +272,17 @@ class B(A):
         for _ in range(1):
             r.append(super().make())
         return r
+    def tagged(self, key, /, *more, **kw):
+        out = []
+        for k in (key,) + more:
+            out.append((super().who(), k, sorted(kw)))
+        return out
+    def after(self, /, x):
+        n = 0
+        while n < 1:
+            n += 1
+            x = super().who() + x
+        return super().who() + x
     @property
     def p(self):
         k = 0
@@ -288,6 +299,7 @@ def factory(base, suffix):
             return res
     return C
 print(B().who(), B.make(), B().p, factory(B, "x")().who()[1][1:])
+print(B().tagged("t", "u", z=1), B().after("!"))
 ''',
     "class_body_scope": '''
 x = 'global'
